@@ -90,6 +90,7 @@ type Resp struct {
 	Ops     int        `json:"ops"`
 	Errs    int        `json:"errs"`
 	Objects int        `json:"objects"`
+	Walked  int        `json:"walked,omitempty"` // objects File.Walk reported (all of them; Objects is what the worker then read)
 	Panics  []PanicRec `json:"panics,omitempty"`
 	Recycle bool       `json:"recycle,omitempty"`
 	AllocMB int64      `json:"alloc_mb,omitempty"`
@@ -385,6 +386,7 @@ func runFile(path string) Resp {
 	var objs []hdf5.Object
 	cr.guard("File.Walk", func() error {
 		f.Walk(func(p string, o hdf5.Object) {
+			cr.resp.Walked++
 			if len(objs) < maxObjects {
 				objs = append(objs, o)
 			}
